@@ -512,7 +512,7 @@ func (e *racEnv) call(x *ECall) gval {
 		return gval{s: "big.NewInt(int64(len(" + e.eval(a[0]).s + ")))", k: gInt, elem: nil}
 	case "cap":
 		return gval{s: "big.NewInt(int64(cap(" + e.eval(a[0]).s + ")))", k: gInt, elem: nil}
-	case "same", "filled", "dseg":
+	case "same", "filled", "dseg", "mseg":
 		// desugared to the element-wise quantifier
 		t := &EIdent{Name: "racT"}
 		at := func(sl Expr, off Expr) Expr {
@@ -525,6 +525,9 @@ func (e *racEnv) call(x *ECall) gval {
 		var n, body Expr
 		if x.Fn == "same" {
 			n, body = a[4], &EBin{Op: "==", X: at(a[0], a[1]), Y: at(a[2], a[3])}
+		} else if x.Fn == "mseg" {
+			k := &EBin{Op: "+", X: a[4], Y: t}
+			n, body = a[5], &EBin{Op: "==", X: at(a[0], a[1]), Y: &ECall{Fn: "ite", Args: []Expr{&EBin{Op: "<", X: k, Y: a[2]}, &ELit{V: "48"}, &ECall{Fn: "uf_dchar", Args: []Expr{a[3], &EBin{Op: "-", X: k, Y: a[2]}}}}}}
 		} else if x.Fn == "dseg" {
 			n, body = a[4], &EBin{Op: "==", X: at(a[0], a[1]), Y: &ECall{Fn: "uf_dchar", Args: []Expr{a[2], &EBin{Op: "+", X: a[3], Y: t}}}}
 		} else {
